@@ -1006,3 +1006,6 @@ Proof.
   destruct (undo_plan cfg d x) as [[plan ok] ops]. cbn in H.
   destruct ops as [|ops]; [lia|]. reflexivity.
 Qed.
+
+Lemma status_mapping : status_plain_error <> status_ok /\ status_unretriable <> status_ok /\ status_other_seata_error <> status_ok.
+Proof. repeat split; discriminate. Qed.
